@@ -585,6 +585,12 @@ class PipeFunc(Generic[T]):
                 f"multiple keys map to the same value: {violation_details}."
             )
             raise ValueError(msg)
+        if len(set(self.parameters)) != len(self.parameters):
+            msg = (
+                "The parameter names should be unique (after applying `renames`),"
+                f" but got `{self.parameters}`."
+            )
+            raise ValueError(msg)
         self._validate_update(
             self._renames,
             "renames",
